@@ -56,6 +56,10 @@ pub enum Item {
     P(PollerSpec),
     /// a thread that removes the registration frame of the k-th context (k >= 1)
     R(usize),
+    /// a thread that imports the registration frame of the k-th context (k >= 1) again,
+    /// unchanged, while the writers append (the instant before insert_frame's commit is a
+    /// step boundary in these runs)
+    I(usize),
 }
 
 #[derive(Serialize, Deserialize, Clone, Debug)]
@@ -81,6 +85,10 @@ pub struct Plan {
 }
 
 pub fn generate(seed: u64, prop: &str, thorough: bool) -> Plan {
+    // C20's share of this engine: the registry workload with a duplicate import of a
+    // registration in every run and no removal
+    let reimport_only = prop == "C20";
+    let prop = if reimport_only { "C07" } else { prop };
     let mut rng = Rng::new(seed);
     let mut ops = Vec::new();
     let nctx = if prop == "C07" { rng.range(1, 2) } else { rng.weighted(&[40, 45, 15]) };
@@ -120,8 +128,16 @@ pub fn generate(seed: u64, prop: &str, thorough: bool) -> Plan {
         ops.push(Item::Pre(a));
     }
     if prop == "C07" {
-        for _ in 0..rng.range(1, 2) {
+        for _ in 0..(if reimport_only { 0 } else { rng.range(1, 2) }) {
             ops.push(Item::R(rng.range(1, nctx)));
+        }
+        // a duplicate import of a registration nobody removes: it must change nothing, at no moment
+        if reimport_only || rng.chance(50) {
+            let removed: Vec<usize> = ops.iter().filter_map(|o| if let Item::R(k) = o { Some(*k) } else { None }).collect();
+            let free: Vec<usize> = (1..=nctx).filter(|k| !removed.contains(k)).collect();
+            if !free.is_empty() {
+                ops.push(Item::I(*rng.pick(&free)));
+            }
         }
     }
     let nw = match prop {
@@ -273,7 +289,12 @@ struct Run {
     bcast_total: u64,
     ticks_left: u32,
     removers: Vec<Remover>,
+    importers: Vec<Importer>,
     pre_expired: HashSet<Scru128Id>,
+}
+
+struct Importer {
+    ctx: Scru128Id,
 }
 
 struct Remover {
@@ -298,7 +319,7 @@ impl Run {
     fn new(plan: &Plan, tag: &str) -> R<Run> {
         let has_removers = plan.ops.iter().any(|i| matches!(i, Item::R(_)));
         let pass: &[&'static str] = if has_removers { &[] } else { &["remove.enter", "remove.committed"] };
-        let mut w = World::new(tag, plan.seed ^ 0x2e, &[("broadcast.cap", plan.bcap), ("read.cap", plan.rcap), ("ids.real", plan.real_ids as usize), ("hist.unguarded", plan.unguarded as usize)], pass);
+        let mut w = World::new(tag, plan.seed ^ 0x2e, &[("broadcast.cap", plan.bcap), ("read.cap", plan.rcap), ("ids.real", plan.real_ids as usize), ("hist.unguarded", plan.unguarded as usize), ("insert.point", plan.ops.iter().any(|i| matches!(i, Item::I(_))) as usize)], pass);
         let path = w.dir.join("s0");
         std::fs::create_dir_all(&path).map_err(|e| Stop::Harness(e.to_string()))?;
         let store = w.open_store(&path)?;
@@ -343,6 +364,7 @@ impl Run {
             .filter_map(|i| if let Item::R(k) = i { Some(*k) } else { None })
             .map(|k| Remover { ctx: ctx_of(&ctxs, k), t_committed: None, t_done: None })
             .collect();
+        let importers: Vec<Importer> = plan.ops.iter().filter_map(|i| if let Item::I(k) = i { Some(Importer { ctx: ctx_of(&ctxs, *k) }) } else { None }).collect();
         let nw = plan.ops.iter().filter_map(|i| if let Item::W(w, _) = i { Some(*w + 1) } else { None }).max().unwrap_or(0);
         let mut appends = Vec::new();
         let mut writer_bases = Vec::new();
@@ -424,6 +446,7 @@ impl Run {
             bcast_total: 0,
             ticks_left: plan.ticks,
             removers,
+            importers,
             pre_expired,
         })
     }
@@ -468,6 +491,21 @@ impl Run {
             });
             self.w.wait()?;
         }
+        for im in &self.importers {
+            let store = self.store.clone();
+            let id = im.ctx;
+            let ticket = xs::verif::expect_thread("importer");
+            std::thread::spawn(move || {
+                let _scope = xs::verif::thread_scope("importer", ticket);
+                let store = store;
+                xs::verif::point("importer.begin", 0);
+                if let Some(frame) = store.get(&id) {
+                    let _ = store.insert_frame(&frame);
+                }
+                xs::verif::point("importer.end", 0);
+            });
+            self.w.wait()?;
+        }
         Ok(())
     }
 
@@ -497,7 +535,7 @@ impl Run {
                     self.writer_progress[wi] = self.writer_progress[wi].max(i + 1);
                 }
                 Err(e) => {
-                    if self.removers.is_empty() {
+                    if self.removers.is_empty() && self.importers.is_empty() {
                         return harness(format!("writer {} append {} failed: {}", wi, i, e));
                     }
                     let a = &mut self.appends[idx];
@@ -526,9 +564,12 @@ impl Run {
         }
         let inside = parked
             .iter()
-            .filter(|(k, _, s, _)| *k == "writer" && (*s == "append.id" || *s == "append.committed" || *s == "append.sending" || *s == "append.broadcast"))
+            .filter(|(k, _, s, _)| *k == "writer" && (*s == "append.id" || *s == "insert.commit" || *s == "append.committed" || *s == "append.sending" || *s == "append.broadcast"))
             .count();
         let waiting = parked.iter().filter(|(k, _, s, _)| *k == "writer" && *s == "append.enter").count();
+        if parked.iter().any(|(k, _, s, _)| *k == "importer" && *s == "insert.commit") && (inside >= 1 || waiting >= 1) {
+            self.w.probe("ctx:append-raced-reimport");
+        }
         if inside >= 2 || (inside >= 1 && waiting >= 1) {
             // two writers want to append at the same time (one inside, one inside or at the door)
             self.w.probe("overlap:writers");
@@ -900,7 +941,7 @@ impl Run {
             }
             // a read waiting for the append lock is worth another try only once the lock is free
             let lock_free = self.store.verif_append_lock_free();
-            let picked = self.w.decide(chooser, &extra, &|e| e.site != "writer.end" && e.site != "remover.end" && e.actor_kind != "gc" && (e.site != "read.lockwait" || lock_free))?;
+            let picked = self.w.decide(chooser, &extra, &|e| e.site != "writer.end" && e.site != "remover.end" && e.site != "importer.end" && e.actor_kind != "gc" && (e.site != "read.lockwait" || lock_free))?;
             match picked {
                 Picked::Nothing => break,
                 Picked::Ran(label) => {
@@ -935,7 +976,7 @@ impl Run {
         // release the writers parked at their end point
         loop {
             self.w.wait()?;
-            let en: Vec<_> = self.w.ctrl.enabled().into_iter().filter(|e| e.site == "writer.end" || e.site == "remover.end").collect();
+            let en: Vec<_> = self.w.ctrl.enabled().into_iter().filter(|e| e.site == "writer.end" || e.site == "remover.end" || e.site == "importer.end").collect();
             if en.is_empty() {
                 break;
             }
